@@ -636,6 +636,24 @@ def core_programs(max_cleanups=1, behaviours=None, handlers=((CUSTOM, "skip"),))
                          handlers=handlers), combo
 
 
+def setup_force_programs(details=False):
+    """force_failure is set (expectThat mismatch / force_failure = True) in setUp or in a cleanup that runs after
+    setUp, and then setUp ends in every behaviour (returns, raises skip / xfail / error / interrupt ..., forgets
+    the upcall): the forced failure has to fail the test on every path (fix 889980a, F21)."""
+    forcers = [["expect", [[[4, []], 1]] if details else []], ["force"]]
+    for name, beh in ALLB.items():
+        for fo in forcers:
+            yield mkprog(setup=[fo] + list(beh)), ("setup", fo[0], name)
+            yield mkprog(setup=[["cleanup", 10, [fo]]] + list(beh)), ("cleanup", fo[0], name)
+            yield mkprog(setup=[["cleanup", 10, [["cleanup", 11, [fo, ["raise", E("Skip", 2)]]]]]] + list(beh)), \
+                ("nested-cleanup", fo[0], name)
+    for fo in forcers:
+        yield mkprog(setup=[fo], up_s="none"), ("setup", fo[0], "no-upcall")
+        yield mkprog(setup=[["cleanup", 10, [fo]]], up_s="none", body=[["raise", E("Fail")]]), ("cleanup", fo[0], "no-upcall")
+        yield mkprog(setup=[fo, ["raise", E("Skip", 1)]], teardown=[["raise", E("ValueError")]], xfail=True), \
+            ("setup", fo[0], "skip-xfail-decorated")
+
+
 def rand_exc(rng, depth=0):
     r = rng.random()
     if r < 0.12 and depth < 2:
